@@ -142,6 +142,19 @@ PROPS = {
         "trusted": ["thiserror Display of a brace-free #[error(\"…\")] is modelled as the text itself; validated by the stream for the library enums"],
         "assumptions": COMMON_ASSUME,
     },
+    "C15": {
+        "lean_module": "SplProofs.C15",
+        "streams": ["C15"],
+        "rule": "stream varlen-account: accounts in the runtime's serialized layout built in the harness (original_data_len word, key, owner, lamports, data_len word, data, 10 KiB spare) so that the real "
+                "AccountInfo::resize runs; histories of alloc_and_pack (repeated types) then realloc_and_pack_variable_len_with_repetition of first/middle/last entries: same size, to 0, grow by 1..2000, "
+                "shrink, grow beyond the 10 KiB limit, missing entries; after every op the full account data is compared with the model and with an independent encoder (other entries byte-identical, "
+                "spare tail zero and of constant size, length delta = encoded-size delta). Stream bpack: derived SplBorshVariableLenPack for a struct, a 3-variant enum and a generic struct with inline "
+                "bounds, values with Unicode strings / byte vectors / options, slots shorter, exact and longer than the value, compared with borsh::to_vec and the Lean codec; non-trivial = account with "
+                ">= 2 entries and a length-changing rewrite of a non-last entry, and every bpack case",
+        "trusted": ["AccountInfo::resize (unsafe pointer code) is modelled as truncate / zero-extend with the 10 KiB limit and validated by the stream on real runtime-layout memory",
+                    "borsh is modelled by the combinator codecs of SplModel/Borsh.lean and validated by the stream"],
+        "assumptions": COMMON_ASSUME + ["type tags are 8-byte non-zero discriminators", "account data is smaller than 2^64 - 1 bytes"],
+    },
     "C16": {
         "lean_module": "SplProofs.C16",
         "streams": ["C16"],
